@@ -270,6 +270,67 @@ def brute_teleport(layout, pos, shape):
     return seen
 
 
+def build_aliased(codes, H, W, pos):
+    """codes per cell: 0 Floor, 1 THE shared Telepod(RED) instance, 2 a Telepod(RED) of its own, 3 a Telepod(BLUE) of its own"""
+    from gym_gridverse.agent import Agent
+    from gym_gridverse.grid import Grid
+    from gym_gridverse.state import State
+    shared = Telepod(Color.RED)
+    mk = {0: Floor, 1: lambda: shared, 2: lambda: Telepod(Color.RED), 3: lambda: Telepod(Color.BLUE)}
+    return State(Grid([[mk[codes[y * W + x]]() for x in range(W)] for y in range(H)]), Agent(Position(*pos), Orientation.F))
+
+
+def mk_teleport_aliased(H, W):
+    """the same Telepod OBJECT placed in several cells (a grid built from a palette of objects): positions, not object identities, decide
+    where the partners are"""
+    def h(sx):
+        codes = tuple(int(sx.int(f'c{i}', 0, 3)) for i in range(H * W))
+        sx.assume(sum(1 for c in codes if c == 1) >= 2)
+        py, px = int(sx.int('py', 0, H - 1)), int(sx.int('px', 0, W - 1))
+        state = build_aliased(codes, H, W, (py, px))
+        colour = {1: 'R', 2: 'R', 3: 'B'}
+        here = codes[py * W + px]
+        partners = [(y, x) for y in range(H) for x in range(W) if (y, x) != (py, px) and here and colour.get(codes[y * W + x]) == colour[here]]
+        rng = SymRng(sx)
+        teleport(state, Action.MOVE_FORWARD, rng=rng)
+        ny, nx = int(state.agent.position.y), int(state.agent.position.x)
+        if partners:
+            sx.cover('teleported-among-shared-instances')
+            sx.check((ny, nx) in partners, 'lands-on-a-same-coloured-partner', f'cells {codes} from {(py, px)} to {(ny, nx)}, partners {partners}')
+            sx.bag.setdefault(('tel-aliased', codes, (py, px), tuple(partners), (H, W)), set()).add((ny, nx))
+        else:
+            sx.cover('not-teleported', nontrivial=bool(here))
+            sx.check((ny, nx) == (py, px), 'not-displaced-otherwise')
+    return h
+
+
+def teleport_aliased_finalize(bag):
+    out = []
+    for key, seen in bag.items():
+        if key[0] != 'tel-aliased':
+            continue
+        _, codes, pos, partners, (H, W) = key
+        missing = set(partners) - seen
+        if missing:  # confirm on the real function with scripted draws
+            k = 0
+            while True:
+                st = build_aliased(codes, H, W, pos)
+                rng = ScriptRng((k,))
+                try:
+                    teleport(st, Action.MOVE_FORWARD, rng=rng)
+                except Exception:
+                    break
+                if not rng.arity or k >= rng.arity[0]:
+                    break
+                missing.discard((st.agent.position.y, st.agent.position.x))
+                k += 1
+        if missing and len(out) < 5:
+            out.append(dict(label='partner-never-reached', confirmed=True,
+                            message=f'cells={codes} (1 = one shared Telepod object) agent={pos}: partner telepods never chosen for any draw: {sorted(missing)}',
+                            inputs=dict(inputs=dict(cells=list(codes), agent=list(pos)), notes={})))
+    return out
+
+
 def teleport_finalize(bag):
     out = []
     for key, seen in bag.items():
@@ -313,6 +374,9 @@ def obligations(tier):
         obs.append(Obligation(f'teleport-{H}x{W}', mk_teleport(H, W, sg, all_actions=False), dict(H=H, W=W, alphabet=[e[0] for e in sg]),
                               finalize=teleport_finalize))
     k = 3 if q else 4
+    for (H, W) in [(1, 3), (2, 2)]:
+        obs.append(Obligation(f'teleport-{H}x{W}-one-telepod-object-in-several-cells', mk_teleport_aliased(H, W), dict(H=H, W=W, cells='Floor, the shared RED telepod, own RED telepod, own BLUE telepod'),
+                              finalize=teleport_aliased_finalize))
     obs.append(Obligation(f'teleport-3x3-max{k}', mk_teleport(3, 3, TEL2 if q else TEL4[:1] + TEL4[2:], max_telepods=k, all_actions=False),
                           dict(H=3, W=3, max_telepods=k), finalize=teleport_finalize))
     return obs
